@@ -89,11 +89,12 @@ type scenario struct {
 	Edits  int      `json:"edits"`
 	Faults int      `json:"faults"`
 	Pauses int      `json:"pauses"`
+	Races  int      `json:"races"`
 	Twin   bool     `json:"twin"` // a second Package using the same manifest name exists
 }
 
 func (sc scenario) name() string {
-	return fmt.Sprintf("package env=%s images=%v configs=%v edits=%d faults=%d pauses=%d twin=%v", sc.Env, sc.Images, sc.Confs, sc.Edits, sc.Faults, sc.Pauses, sc.Twin)
+	return fmt.Sprintf("package env=%s images=%v configs=%v edits=%d faults=%d pauses=%d races=%d twin=%v", sc.Env, sc.Images, sc.Confs, sc.Edits, sc.Faults, sc.Pauses, sc.Races, sc.Twin)
 }
 
 var pkgKey = world.PKOKey("Package", world.NS, "p")
@@ -328,6 +329,7 @@ func system(sc scenario) *world.System {
 			w.Budget["edit"] = sc.Edits
 			w.Budget["fault"] = sc.Faults
 			w.Budget["user-pause"] = sc.Pauses
+			w.Budget["race"] = sc.Races
 			return w
 		},
 		Events: func(w *world.World) []world.Event {
@@ -401,6 +403,32 @@ func system(sc scenario) *world.System {
 					return nil
 				}})
 			}
+			if w.Budget["race"] > 0 {
+				// another writer (the ObjectDeployment controller, a user) updates the ObjectDeployment
+				// between two calls of the Package pass: the pass's next write of it conflicts
+				probe := w.Clone()
+				n := len(probe.Reconcile(world.CtrlPackage, osw.NN("p"), nil).Reqs)
+				for i := 0; i < n; i++ {
+					i := i
+					evs = append(evs, world.Event{Name: fmt.Sprintf("race:pkg:p:deployment-touched@%d", i), Apply: func(w *world.World) *world.Pass {
+						w.Budget["race"]--
+						return rec(w, &world.Plan{InterfereAt: i, Interfere: func(w *world.World) {
+							if w.S.Objs[odKey] != nil {
+								_ = w.Edit(odKey, func(c map[string]any) {
+									md := c["metadata"].(map[string]any)
+									an, _ := md["annotations"].(map[string]any)
+									if an == nil {
+										an = map[string]any{}
+									}
+									n, _ := an["other-writer"].(string)
+									an["other-writer"] = n + "x"
+									md["annotations"] = an
+								})
+							}
+						}})
+					}})
+				}
+			}
 			if w.Budget["fault"] > 0 {
 				probe := w.Clone()
 				n := len(probe.Reconcile(world.CtrlPackage, osw.NN("p"), nil).Reqs)
@@ -428,12 +456,14 @@ func scenarios(quick bool) []scenario {
 		{Env: "ocp-4.12", Images: []string{"openshiftonly", "k8s130", "v1", "missing"}, Confs: []string{"none", "x2"}, Edits: 2, Faults: 1},
 		{Env: "k8s-1.27", Images: []string{"unique", "v1", "tmpl"}, Confs: []string{"none", "x1", "x2"}, Edits: 2, Twin: true, Pauses: 1},
 		{Env: "k8s-1.27", Images: []string{"tmpl", "v2", "nophase"}, Confs: []string{"none", "x1", "x2", "bad"}, Edits: 2, Faults: 1, Pauses: 1},
+		{Env: "k8s-1.27", Images: []string{"v1", "v2", "tmpl"}, Confs: []string{"none", "x1"}, Edits: 2, Races: 1},
 	}
 	if !quick {
 		out = append(out,
 			scenario{Env: "k8s-1.27", Images: append([]string{"v1"}, all...), Confs: []string{"none", "x1", "x2", "bad"}, Edits: 3},
 			scenario{Env: "ocp-4.12", Images: append([]string{"v2"}, all...), Confs: []string{"none", "x1"}, Edits: 3, Faults: 1},
 			scenario{Env: "k8s-1.27", Images: []string{"unique", "v1", "v2", "tmpl"}, Confs: []string{"none", "x1", "x2"}, Edits: 3, Twin: true, Pauses: 2, Faults: 1},
+			scenario{Env: "k8s-1.27", Images: []string{"v1", "v2", "tmpl", "missing"}, Confs: []string{"none", "x1", "x2"}, Edits: 3, Races: 2, Faults: 1, Pauses: 1},
 		)
 	}
 	return out
@@ -441,7 +471,7 @@ func scenarios(quick bool) []scenario {
 
 func run(o checks.Opts) *report.Report {
 	rep := report.New("C16", "bfs")
-	rep.Rule = "explicit-state BFS: Package p whose image is switched among {valid v1, valid v2, templated, not in registry, no manifest, two manifests, malformed object YAML, object without phase annotation, OpenShift-only, Kubernetes>=1.30, uniqueInScope} and whose config among {none, x:1, x:2, schema-violating}, 2-3 edits, pause/unpause, every fault kind at every API call of the Package controller's pass, environments Kubernetes 1.27 / OpenShift 4.12, optional twin Package with the same manifest name; real Package controller + PackageDeployer + scripted registry; monitor on every Package pass; fresh-render differential oracle for valid specs"
+	rep.Rule = "explicit-state BFS: Package p whose image is switched among {valid v1, valid v2, templated, not in registry, no manifest, two manifests, malformed object YAML, object without phase annotation, OpenShift-only, Kubernetes>=1.30, uniqueInScope} and whose config among {none, x:1, x:2, schema-violating}, 2-3 edits, pause/unpause, a foreign write to the ObjectDeployment landing before each API call of the pass (update conflict), every fault kind at every API call of the Package controller's pass, environments Kubernetes 1.27 / OpenShift 4.12, optional twin Package with the same manifest name; real Package controller + PackageDeployer + scripted registry; monitor on every Package pass; fresh-render differential oracle for valid specs"
 	scs := scenarios(o.Quick())
 	rep.Bounds["systems"] = len(scs)
 	for i, sc := range scs {
@@ -474,9 +504,9 @@ func init() {
 		},
 		Subs: []*checks.Sub{{Name: "bfs", Shards: func(t string) int {
 			if t == "thorough" {
-				return 7
+				return 8
 			}
-			return 4
+			return 5
 		}, Run: run, Replay: replay, Parallel: true}},
 	})
 }
